@@ -143,8 +143,9 @@ class Server:
             left = end - time.time()
             if left <= 0:
                 return None
-            rl, _, _ = select.select([self.r], [], [], left)
-            if not rl:
+            po = select.poll()
+            po.register(self.r, select.POLLIN | select.POLLHUP)
+            if not po.poll(left * 1000):
                 return None
             d = os.read(self.r, 4096)
             if not d:
@@ -204,6 +205,9 @@ class Server:
         return x
 
     def close(self):
+        if getattr(self, "closed", False):
+            return
+        self.closed = True
         if self.alive:
             try:
                 os.write(self.w, b"QUIT\n")
@@ -223,26 +227,34 @@ class Server:
 
 
 class ServerPool:
-    """One Server per explorer thread for a fixed command line (servers are sequential, the pool is parallel)."""
+    """A free-list of Servers for one fixed command line (each server is sequential, the pool is parallel)."""
 
     def __init__(self, factory):
         self.factory = factory
-        self.tls = threading.local()
+        self.free = []
         self.all = []
         self.lock = threading.Lock()
 
     def run(self, prefix=(), fault=None, timeout=120):
-        s = getattr(self.tls, "s", None)
-        if s is None or not (s.alive or s.unserved is not None):
+        with self.lock:
+            s = self.free.pop() if self.free else None
+        if s is None:
             s = self.factory()
-            self.tls.s = s
             with self.lock:
                 self.all.append(s)
-        return s.run(prefix, fault, timeout)
+        try:
+            return s.run(prefix, fault, timeout)
+        finally:
+            if s.alive or s.unserved is not None:
+                with self.lock:
+                    self.free.append(s)
+            else:
+                s.close()
 
     def close(self):
         for s in self.all:
             s.close()
+        self.all, self.free = [], []
 
 
 class Stats:
